@@ -117,11 +117,19 @@ pub fn generate(g: &mut Gen, thorough: bool) {
         ("geo:in | utm zone=32", "55 12\n0 -81\n56 9\n-91 0\n57 10\n"),
         ("geo:in | gridshift grids=test.datum", "55 12\n10 100\n56 11\n"),
         ("geo:in | utm zone=32 | neu:out", "95 12\n55 12\n"),
+        // the number of successes is not an index: the first tuple fails, the later ones do not
+        ("geo:in | gridshift grids=test.datum", "10 100\n55 12\n56 11\n"),
+        // a missing time is NaN, which `cart` does not count (but converts)
+        ("geo:in | cart", "55 12\n56 13 100\n57 14 0 2020\n"),
+        ("cart", "0.2 0.9 10\n0.3 1 100 2020\n"),
     ] {
         for rt in [false, true] {
-            for inv in [false] {
-                let c = KpCase { inv, rt, z: None, t: None, d: Some(3), dim: Some(2), op: op.into(), files: vec![Some(lines.into())] };
+            for dim in [2, 4] {
+                let c = KpCase { inv: false, rt, z: None, t: None, d: Some(3), dim: Some(dim), op: op.into(), files: vec![Some(lines.into())] };
                 g.push(c.line("S_C20"), "oracle-failing-tuples", true);
+                if op == "cart" {
+                    g.push(c.line("KP"), "kp-failing-tuples", true);
+                }
             }
         }
     }
